@@ -4,11 +4,13 @@ import (
 	"bytes"
 	"encoding/binary"
 	"fmt"
+	"hash/fnv"
 	"math/rand"
 	"os"
 	"runtime"
 	"strconv"
 	"strings"
+	"sync"
 	"time"
 	"unsafe"
 
@@ -109,6 +111,17 @@ func segsJSON(segs [][]byte) interface{} {
 // run f under recover; report a panic as a fault
 func guarded(line int, mode, variant, consumer string, segs [][]byte, stats map[string]int, f func()) {
 	stats["consumer_runs"]++
+	curMu.Lock()
+	cur = &running{line: line, mode: mode, variant: variant, consumer: consumer, segs: segs, start: time.Now()}
+	curMu.Unlock()
+	defer func() {
+		curMu.Lock()
+		if d := time.Since(cur.start); d > 5*time.Second {
+			stats["slow_consumer_runs"]++
+		}
+		cur = nil
+		curMu.Unlock()
+	}()
 	defer func() {
 		if p := recover(); p != nil {
 			buf := make([]byte, 2048)
@@ -345,13 +358,30 @@ func cloneAll(segs [][]byte) [][]byte {
 	return out
 }
 
-var c01rng *rand.Rand
+// the consumer run in progress (for the watchdog): a hang is one consumer run on one presentation that
+// does not finish within c01hang; the report carries the bytes of that very variant so that it can be re-run
+type running struct {
+	line                    int
+	mode, variant, consumer string
+	segs                    [][]byte
+	start                   time.Time
+}
+
+var (
+	curMu   sync.Mutex
+	cur     *running
+	c01hang = 150 * time.Second
+)
+
+var c01seed int64
 var c01mut = 2
 var c01modes = []string{"exact", "unmarshal", "slack-a"}
 
 func init() {
-	seed, _ := strconv.ParseInt(os.Getenv("VERIF_SEED"), 10, 64)
-	c01rng = rand.New(rand.NewSource(seed + 77))
+	c01seed, _ = strconv.ParseInt(os.Getenv("VERIF_SEED"), 10, 64)
+	if n, err := strconv.Atoi(os.Getenv("VERIF_C01_HANG")); err == nil && n > 0 {
+		c01hang = time.Duration(n) * time.Second
+	}
 	if n, err := strconv.Atoi(os.Getenv("VERIF_C01_MUT")); err == nil {
 		c01mut = n
 	}
@@ -362,8 +392,13 @@ func c01one(line int, r *rec, stats map[string]int) {
 	if len(base) == 0 {
 		return
 	}
+	h := fnv.New64a()
+	for _, b := range base {
+		h.Write(b)
+		h.Write([]byte{0xfe})
+	}
+	c01rng := rand.New(rand.NewSource(c01seed + 77 + int64(h.Sum64()>>1)))
 	done := make(chan struct{})
-	var where string
 	go func() {
 		defer close(done)
 		variants := []struct {
@@ -426,19 +461,30 @@ func c01one(line int, r *rec, stats map[string]int) {
 					lim = []string{"default"}
 				}
 				for _, l := range lim {
-					where = v.name + "/" + mode + "/" + l
 					consumers(line, mode, v.name, v.segs, l, stats)
 				}
 			}
 		}
 	}()
-	select {
-	case <-done:
-	case <-time.After(60 * time.Second):
-		buf := make([]byte, 1<<16)
-		n := runtime.Stack(buf, true)
-		emit(consumerFault{Line: line, Mode: where, Consumer: "watchdog", Kind: "hang", Detail: string(buf[:n]), SegsJ: r.Segs})
-		emit(map[string]interface{}{"summary": true, "aborted": "hang", "messages": line, "stats": stats})
-		os.Exit(3)
+	tick := time.NewTicker(500 * time.Millisecond)
+	defer tick.Stop()
+	for {
+		select {
+		case <-done:
+			return
+		case <-tick.C:
+			curMu.Lock()
+			c := cur
+			curMu.Unlock()
+			if c == nil || time.Since(c.start) < c01hang {
+				continue
+			}
+			buf := make([]byte, 1<<16)
+			n := runtime.Stack(buf, true)
+			emit(consumerFault{Line: line, Mode: c.mode, Variant: c.variant, Consumer: c.consumer, Kind: "hang",
+				Detail: fmt.Sprintf("no result after %v | %s", c01hang, firstLibFrame(string(buf[:n]))), SegsJ: segsJSON(c.segs)})
+			emit(map[string]interface{}{"summary": true, "aborted": "hang", "messages": line, "stats": stats})
+			os.Exit(3)
+		}
 	}
 }
